@@ -34,14 +34,14 @@ structure SeqSpec (AS Op Res : Type) where
 inductive HEv (Op Res : Type) where
   | inv (t : Nat) (op : Op)
   | ret (t : Nat) (r : Res)
-deriving DecidableEq, Repr
+deriving DecidableEq, Repr, Hashable
 
 /-- history events plus linearization markers -/
 inductive LEv (Op Res : Type) where
   | inv (t : Nat) (op : Op)
   | lin (t : Nat) (op : Op) (r : Res)
   | ret (t : Nat) (r : Res)
-deriving DecidableEq, Repr
+deriving DecidableEq, Repr, Hashable
 
 variable {AS Op Res : Type}
 
@@ -65,7 +65,7 @@ inductive CallSt (Op Res : Type) where
   | pending (op : Op)
   | linearized (op : Op) (r : Res)
   | returned (op : Op) (r : Res)
-deriving DecidableEq, Repr
+deriving DecidableEq, Repr, Hashable
 
 structure LinSt (AS Op Res : Type) where
   st : AS
